@@ -24,10 +24,66 @@ fn c02_text(kind: usize, n: usize, rng: &mut Rng) -> Vec<char> {
     (0..n).map(|_| *rng.pick(pool)).collect()
 }
 
-fn c02_check(ctx: &mut Ctx, rs: &RefSentence, variant: &str) {
-    let r = guard(|| {
-        let s = build_sentence(rs);
-        observe(&s, false)
+/// Reference partial-annotation writer (all five delimiters escaped inside tags).
+pub fn write_partial_ref(rs: &RefSentence) -> String {
+    let mut out = String::new();
+    for i in 0..rs.chars.len() {
+        out.push(rs.chars[i]);
+        for t in rs.trimmed(i) {
+            out.push('/');
+            if let Some(t) = t {
+                for c in t.chars() {
+                    if [' ', '/', '\\', '-', '|'].contains(&c) {
+                        out.push('\\');
+                    }
+                    out.push(c);
+                }
+            }
+        }
+        if i + 1 < rs.chars.len() {
+            out.push(match rs.labels[i] {
+                0 => '-',
+                1 => '|',
+                _ => ' ',
+            });
+        }
+    }
+    out
+}
+
+thread_local! {
+    static ROUTE_PREDICTOR: vaporetto::Predictor = {
+        let m = vgen::mirror::ModelData {
+            char_ngram_model: vec![vgen::mirror::NgramData { ngram: "a".into(), weights: vec![1, -1] }],
+            bias: 1,
+            char_window_size: 1,
+            type_window_size: 1,
+            ..Default::default()
+        };
+        new_predictor(&m, false).expect("route predictor")
+    };
+}
+
+fn c02_check(ctx: &mut Ctx, rs: &RefSentence, variant: &str, route: usize) {
+    // the same label vector reached through different histories of the public API
+    let route_name = ["from_raw+boundaries_mut", "predict_then_boundaries_mut", "from_partial_annotation"][route % 3];
+    ctx.count(&format!("sentences_via_{route_name}"), 1);
+    let r = guard(|| match route % 3 {
+        1 => ROUTE_PREDICTOR.with(|p| {
+            let mut s = vaporetto::Sentence::from_raw(rs.text()).expect("from_raw");
+            p.predict(&mut s);
+            // SAFETY of lifetimes: the sentence does not outlive this closure
+            apply_annotations(&mut s, rs);
+            observe(&s, false)
+        }),
+        2 => {
+            let s = vaporetto::Sentence::from_partial_annotation(&write_partial_ref(rs)).expect("reference-written partial annotation");
+            observe(&s, false)
+        }
+        _ => {
+            let s = build_sentence(rs);
+            observe(&s, false)
+        }
     });
     ctx.eval(1);
     let spans = ref_partition(rs.chars.len(), &rs.labels);
@@ -98,11 +154,14 @@ fn c02_check(ctx: &mut Ctx, rs: &RefSentence, variant: &str) {
             },
         })
         .collect();
-    if obs.tokens != expect {
+    let trim_tok = |ts: &[TokenObs]| -> Vec<TokenObs> {
+        ts.iter().map(|t| TokenObs { start: t.start, end: t.end, surface: t.surface.clone(), tags: fmt::trim(&t.tags) }).collect()
+    };
+    if trim_tok(&obs.tokens) != trim_tok(&expect) {
         let fmt_t = |ts: &[TokenObs]| J::A(ts.iter().map(|t| J::s(format!("{}..{} {:?} {:?}", t.start, t.end, t.surface, t.tags))).collect());
         ctx.violation(
             "C02:tokens_differ_from_reference_partition",
-            detail(vec![("expected", fmt_t(&expect)), ("observed", fmt_t(&obs.tokens))]),
+            detail(vec![("route", J::s(route_name)), ("expected", fmt_t(&expect)), ("observed", fmt_t(&obs.tokens))]),
         );
         return;
     }
@@ -138,7 +197,7 @@ pub fn run_c02x(ctx: &mut Ctx, from: u64, to: u64) {
                 vec![vec![]; n]
             };
             let rs = RefSentence { chars: chars.clone(), labels, tags };
-            c02_check(ctx, &rs, KINDS[kind]);
+            c02_check(ctx, &rs, KINDS[kind], v + k as usize);
             if n >= 2 {
                 ctx.nontrivial(fnv(format!("{:?}{:?}{}", rs.chars, rs.labels, with_tags).as_bytes()));
             }
@@ -161,11 +220,11 @@ pub fn run_c02r(ctx: &mut Ctx, from: u64, to: u64) {
     for k in from..to {
         ctx.begin_case(k);
         let mut rng = Rng::new(case_seed(ctx.seed, "C02r", k));
-        let n = rng.urange(1, 60);
+        let n = if rng.chance(1, 20) { rng.urange(61, 400) } else { rng.urange(1, 60) };
         let kind = rng.below(4);
         let chars = c02_text(kind, n, &mut rng);
-        let uw = *rng.pick(&[2u32, 10, 30]);
-        let labels = vgen::gen::gen_labels(&mut rng, n - 1, uw);
+        let dist: [u32; 3] = *rng.pick(&[[10, 10, 2], [10, 10, 10], [10, 10, 30], [20, 1, 3], [6, 1, 6], [1, 10, 5]]);
+        let labels: Vec<u8> = (0..n - 1).map(|_| rng.weighted(&dist) as u8).collect();
         let with_tags = rng.chance(1, 2);
         let tags = (0..n)
             .map(|_| {
@@ -177,7 +236,7 @@ pub fn run_c02r(ctx: &mut Ctx, from: u64, to: u64) {
             })
             .collect();
         let rs = RefSentence { chars, labels, tags };
-        c02_check(ctx, &rs, KINDS[kind]);
+        c02_check(ctx, &rs, KINDS[kind], k as usize);
         if n >= 2 {
             ctx.nontrivial(fnv(format!("{:?}{:?}{:?}", rs.chars, rs.labels, rs.tags).as_bytes()));
         }
@@ -187,10 +246,28 @@ pub fn run_c02r(ctx: &mut Ctx, from: u64, to: u64) {
 // ------------------------------------------------------------------------------------------ C03 / C04
 
 const FMT_ALPHA: &[char] = &[' ', '/', '\\', '-', '|', 'a', 'あ', '𠮷', 'é', 'b', 'ｱ', '\n'];
+/// Look-alikes and other white space / control characters: none of them has a meaning in the formats.
+const FMT_CONFUSABLE: &[char] = &[
+    '\u{3000}', '\u{a0}', '／', '＼', '｜', '−', '－', 'ー', '\u{2028}', '\u{2029}', '\t', '\u{b}', '\u{c}', '\r', '\u{85}', '\u{1f}', '\u{7f}', '\u{200b}',
+    '\u{feff}', '\u{2002}', '\u{202f}', '\u{10ffff}', '\u{e000}',
+];
+
+fn fmt_char(rng: &mut Rng) -> char {
+    match rng.below(20) {
+        0 | 1 => *rng.pick(FMT_CONFUSABLE),
+        2 => loop {
+            let u = 1 + (rng.next_u64() % 0x10_ffff) as u32;
+            if let Some(c) = char::from_u32(u) {
+                break c;
+            }
+        },
+        _ => *rng.pick(FMT_ALPHA),
+    }
+}
 
 fn gen_tag(rng: &mut Rng) -> String {
     let n = rng.urange(1, 4);
-    (0..n).map(|_| *rng.pick(FMT_ALPHA)).collect()
+    (0..n).map(|_| fmt_char(rng)).collect()
 }
 
 fn gen_round_trip_sentence(rng: &mut Rng, partial: bool) -> RefSentence {
@@ -199,7 +276,7 @@ fn gen_round_trip_sentence(rng: &mut Rng, partial: bool) -> RefSentence {
         1 => 2,
         _ => rng.urange(3, 24),
     };
-    let chars: Vec<char> = (0..n).map(|_| *rng.pick(FMT_ALPHA)).collect();
+    let chars: Vec<char> = (0..n).map(|_| fmt_char(rng)).collect();
     let labels: Vec<u8> = (0..n - 1).map(|_| if partial { rng.below(3) as u8 } else { rng.below(2) as u8 }).collect();
     let tag_density = *rng.pick(&[0u32, 1, 2, 3]);
     let mut tags: Vec<Vec<Option<String>>> = vec![vec![]; n];
@@ -295,9 +372,17 @@ fn round_trip(ctx: &mut Ctx, prop: &str, rs: &RefSentence, partial: bool) {
         }
     }
     // the library's own parser on the written text
+    let via_update = rs.chars.len() % 2 == 0;
     let back = guard(|| {
-        let r = if partial { Sentence::from_partial_annotation(&written) } else { Sentence::from_tokenized(&written) };
-        r.map(|s| observe(&s, false)).map_err(|e| format!("{e}"))
+        if via_update {
+            // the same parse through update_* on an object that already holds a tagged sentence
+            let mut s = Sentence::from_tokenized("まぁ/副詞/X 良い/形容詞 だろう/助動詞/Y/Z").unwrap();
+            let r = if partial { s.update_partial_annotation(&written) } else { s.update_tokenized(&written) };
+            r.map(|_| observe(&s, false)).map_err(|e| format!("{e}"))
+        } else {
+            let r = if partial { Sentence::from_partial_annotation(&written) } else { Sentence::from_tokenized(&written) };
+            r.map(|s| observe(&s, false)).map_err(|e| format!("{e}"))
+        }
     });
     ctx.eval(1);
     match back {
